@@ -106,6 +106,7 @@ type fakeListener struct {
 func (l *fakeListener) Accept() (net.Conn, error) {
 	rt.Block("listener:accept", func() bool { return len(l.queue) > 0 || l.closed || l.failErr != nil })
 	if l.failErr != nil {
+		l.w.lstFailed = true
 		l.w.acceptErr, l.w.acceptErrSeq = l.failErr, l.w.seq()
 		return nil, l.failErr
 	}
@@ -259,6 +260,7 @@ type loopWorld struct {
 	accepted  int
 	acceptErr error
 	acceptErrSeq int
+	lstFailed    bool // the fake listener under NetAccepter reported its injected failure
 	netPop    bool
 	acc       *simAccepter
 	lst       *fakeListener
@@ -688,6 +690,15 @@ func (w *loopWorld) check(failErr error, ctxErrClosed bool) {
 	// here with the standard library's own test, not with the library's helper.
 	closedListener := func(err error) bool { return err != nil && errors.Is(err, net.ErrClosed) }
 	switch {
+	case w.netPop && !(failErr != nil && w.lstFailed):
+		// Over a NetAccepter whose listener reported no failure of its own, the
+		// only way Accept can fail is the end of the context, "which is what
+		// NetAccepter yields" as a closed-listener error: Loop returns nil,
+		// whatever error value NetAccepter made up for it.
+		if w.loopErr != nil {
+			r.Fail("loop-wrong-result", "the context ended and the listener reported no failure of its own, yet Loop over a NetAccepter returned %v, want nil (NetAccepter returned %v)", w.loopErr, w.acceptErr)
+			return
+		}
 	case failErr != nil && errors.Is(w.acceptErr, failErr):
 		if !errors.Is(w.loopErr, failErr) {
 			r.Fail("loop-wrong-result", "the accepter failed with %q, Loop returned %v", failErr, w.loopErr)
